@@ -36,6 +36,9 @@ Fixpoint first_fail (l : list sx) : sx :=
   | v :: l' => if sx_bool (sx_nth 0 v) then first_fail l' else v
   end.
 
+Definition req_scheme_of (q : req) : str :=
+  req_scheme (q_tls q) (hget (q_hdrs q) (bytes "X-Forwarded-Proto")).
+
 (* ---- C04 ---- *)
 Definition mon_C04 (x o : sx) : sx :=
   let '(c, rs, q, sc) := route_case x in
@@ -53,8 +56,17 @@ Definition mon_C04 (x o : sx) : sx :=
         else if internal then verdict false "internal destination: secret/id/ip not as required"
         else verdict false "external destination received a Richie-* header"
       end in
+  (* the routes the request takes at top level: the selected proxy rule and the copy rule before it *)
+  let '(pm, cm) := rules_match rs (req_scheme_of q) (drop_port (q_host q)) (q_uri q) (q_method q) in
+  let route_internal (m : option rmatch) := match m with Some (_, r, _) => r_internal r && configured | None => false end in
+  let deny_due := match pm with
+                  | Some _ => must_deny h (route_internal pm) secrets || (route_internal cm && must_deny h true secrets)
+                  | None => false
+                  end in
   first_fail
-    ((if unknown && negb (Z.eqb (obs_status o) 407) && negb (Z.eqb (obs_status o) 404)
+    ((if deny_due && negb (match obs_log o with [] => true | _ => false end)
+      then verdict false "a request that must be denied on its proxy or copy route (internal, id/IP without a secret, or unknown secret) reached a destination" else v_ok)
+     :: (if unknown && negb (Z.eqb (obs_status o) 407) && negb (Z.eqb (obs_status o) 404)
       then verdict false "unknown secret not answered 407" else v_ok)
      (* with a retry_rule whose internal flag differs from its parent's, the parent destination may
         legitimately have been contacted before the fallback route denies the request *)
@@ -78,8 +90,6 @@ Fixpoint index_where {X} (f : X -> bool) (l : list X) (i : nat) : option nat :=
 Definition proxy_choice (rs : list rule) (log : list sx) : option nat :=
   index_where (fun r => is_proxy r && existsb (fun d => str_eqb (url_host (r_dest r)) (url_host (dl_url d))) log) rs 0.
 
-Definition req_scheme_of (q : req) : str :=
-  req_scheme (q_tls q) (hget (q_hdrs q) (bytes "X-Forwarded-Proto")).
 
 Definition mon_C01 (x o : sx) : sx :=
   let '(c, rs, q, sc) := route_case x in
